@@ -287,6 +287,13 @@ inline std::string seedTableText(Rng& r, char sep)
   for (size_t i = 0; i < nr; ++i)
   {
     if (rn) s += "r" + std::to_string(r.chance(1, 8) ? 0 : i) + sep;
+    if (i >= 1 && r.chance(1, 6))
+    {
+      // degenerate later line: only separators / only blanks
+      s += r.coin() ? std::string(1 + r.below(3), sep) : std::string(1 + r.below(2), ' ');
+      s += "\n";
+      continue;
+    }
     size_t m = r.chance(1, 8) ? r.below(6) : nc;
     for (size_t j = 0; j < m; ++j) s += (j ? std::string(1, sep) : "") + (r.chance(1, 8) ? "" : seedWord(r));
     s += r.chance(1, 10) ? "\n\n" : "\n";
@@ -440,6 +447,30 @@ inline std::vector<std::string> dictIntervals()
       for (const auto& lo : b)
         for (const auto& hi : b) out.push_back(std::string(o) + lo + ";" + hi + c);
   for (const char* s : {"", "[", "]", ";", "[;", ";]", "[]", "[1]", "[1;2;3]", "[[1;2]]", "[1,2]", "];[", "[;]x"}) out.push_back(s);
+  return out;
+}
+
+// line-structured table texts: a first line, a second line and one or two later lines, each drawn from a small
+// set of line kinds (well formed, only separators, only blanks, one field too few / too many, empty fields)
+inline std::vector<std::string> dictTableTexts(char sep)
+{
+  const std::string S(1, sep);
+  const std::vector<std::string> first = {"a" + S + "b", S + "a" + S + "b", "a", S + S, "a" + S + "a"};
+  const std::vector<std::string> second = {"r1" + S + "1" + S + "2", "1" + S + "2", "x", S + S, "r1" + S + "1" + S + "2" + S + "3"};
+  const std::vector<std::string> later = {"r2" + S + "3" + S + "4", "3" + S + "4", S + S, S, " ", "", "r2" + S + "3", "r2" + S + "3" + S + "4" + S + "5",
+                                          "r1" + S + "5" + S + "6", S + "3" + S + "4", "r2" + S + S + "4"};
+  std::vector<std::string> out;
+  for (const auto& a : first)
+    for (const auto& b : second)
+    {
+      out.push_back(a + "\n" + b + "\n");
+      for (const auto& c : later)
+      {
+        out.push_back(a + "\n" + b + "\n" + c + "\n");
+        out.push_back(a + "\n" + b + "\n" + c); // no final newline
+        for (const auto& d : later) out.push_back(a + "\n" + b + "\n" + c + "\n" + d + "\n");
+      }
+    }
   return out;
 }
 
